@@ -313,6 +313,27 @@ def _generate(rng, tier):
                 large = [x for x in tup if len(x) > 2]
                 for ks in (small + rng.sample(large, min(len(large), 40)) if thorough else rng.sample(tup, min(len(tup), 10))):
                     yield {"fam": "tcomm", "cols": cols, "rows": k, "names": ks}
+    # ---- the same selections on tables whose columns got their names through live column views after the table had been
+    #      used under other names (anything the table remembers about its names is stale by then)
+    for li, layout in enumerate(LAYOUTS):
+        keys = _keys_for(layout)
+        short = keys[:: max(1, len(keys) // 6)][:6] + ["zz"]
+        for nrows in (0, 2):
+            cols = _table(layout, nrows, li)
+            for pre_names in ([("old%d" % j) for j in range(len(layout))], list(reversed(layout)), layout[1:] + layout[:1],
+                              [(nm.upper() if isinstance(nm, str) else "n") for nm in layout]):
+                for warm in (None, "dir", "attr", "getitem"):
+                    pre = {"names": pre_names, "warm": warm, "route": rng.choice(["setter", "setter", "rename", "alias"])}
+                    olds = [n for n in pre_names if isinstance(n, str)][:3]
+                    for k in short + olds:
+                        yield {"fam": "tget", "cols": cols, "pre": pre, "key": {"t": "name", "k": k}}
+                    for ks in itertools.product((short + olds)[:: 2][:5], repeat=2):
+                        yield {"fam": "tget", "cols": cols, "pre": pre, "key": {"t": "names", "ks": list(ks)}}
+                    for k1 in short[:4] + olds:
+                        yield {"fam": "tget", "cols": cols, "pre": pre, "key": {"t": "names", "ks": [k1]}}
+                        yield {"fam": "tcomm", "cols": cols, "pre": pre, "rows": {"t": "slice", "s": [None, None, -1]}, "names": [k1]}
+                        yield {"fam": "tget", "cols": cols, "pre": pre,
+                               "key": {"t": "tuple", "items": [{"t": "slice", "s": [None, None, None]}, {"t": "names", "ks": [k1]}]}}
     for _ in range(3000 if not thorough else 30000):
         layout = [rng.choice(["a", "b", "A b", "a b", "B", None, "sum", "x__1", "9", "_"]) for _ in range(rng.randint(1, 6))]
         nrows = rng.randint(0, 6)
@@ -565,9 +586,42 @@ def _exec_cmp(spec):
     return {"fam": "cmp", "case": case, "impl": impl}
 
 
-def _build_table(cols):
+def _build_table(cols, pre=None):
+    """`pre` = {"names": [...], "warm": how, "route": how}: the table is first built under other column names, optionally used
+    (so that whatever it derives from its names exists), and then brought to the final names by renaming the columns through
+    their live views - the selection judged afterwards must see the names the columns have *now*"""
     from serif import Vector, Table
-    return Table([Vector([VALS[i] for i in c["vals"]], name=c["name"]) for c in cols])
+    if not pre:
+        return Table([Vector([VALS[i] for i in c["vals"]], name=c["name"]) for c in cols])
+    t = Table([Vector([VALS[i] for i in c["vals"]], name=nm) for c, nm in zip(cols, pre["names"])])
+    warm = pre.get("warm")
+    if warm == "dir":
+        dir(t)
+    elif warm == "attr":
+        for n in dir(t):
+            if not n.startswith("_"):
+                try:
+                    getattr(t, n)
+                except Exception:
+                    pass
+                break
+    elif warm == "getitem" and pre["names"] and isinstance(pre["names"][0], str):
+        t[pre["names"][0]]
+        t[(pre["names"][0],)]
+    views = list(t.cols())
+    for c, v, old in zip(cols, views, pre["names"]):
+        if c["name"] != old:
+            route = pre.get("route", "setter")
+            if route == "rename" and c["name"] is not None:
+                v.rename(c["name"])
+            elif route == "alias" and c["name"] is not None and hasattr(v, "alias"):
+                try:
+                    v.alias(c["name"])
+                except Exception:
+                    v.name = c["name"]
+            else:
+                v.name = c["name"]
+    return t
 
 
 def _build_spec(s):
@@ -615,7 +669,7 @@ def _obs_table_result(it, r, key_spec):
 def _exec_table(spec):
     from serif.naming import _sanitize_user_name
     it = Interner()
-    t = _build_table(spec["cols"])
+    t = _build_table(spec["cols"], spec.get("pre"))
     case = {"cols": [_vecwire(it, c) for c in t.cols()]}
     case["san"] = [[n, _sanitize_user_name(n)] for n in sorted({c["name"] for c in spec["cols"] if c["name"] is not None})]
     if spec["fam"] == "tget":
